@@ -11,25 +11,26 @@ use multiboot2::{TagHeader, TagTypeId};
 use multiboot2_common::{clone_dyn, new_boxed, DynSizedStructure, MaybeDynSized};
 
 const MAXC: usize = 12;
+const MAXC_T: usize = 24;
 
-/// Symbolic content of length `total <= 12` cut into `k <= 3` slices.
-struct Parts {
-    content: [u8; MAXC],
+/// Symbolic content of length `total <= M` cut into `k <= 3` slices.
+struct Parts<const M: usize = MAXC> {
+    content: [u8; M],
     c1: usize,
     c2: usize,
     total: usize,
     k: usize,
 }
-fn parts() -> Parts {
-    let content: [u8; MAXC] = nd::any();
+fn parts<const M: usize>() -> Parts<M> {
+    let content: [u8; M] = nd::any();
     let c1: usize = nd::any();
     let c2: usize = nd::any();
     let total: usize = nd::any();
     let k: usize = nd::any();
-    nd::assume(c1 <= c2 && c2 <= total && total <= MAXC && k <= 3);
+    nd::assume(c1 <= c2 && c2 <= total && total <= M && k <= 3);
     Parts { content, c1, c2, total, k }
 }
-impl Parts {
+impl<const M: usize> Parts<M> {
     fn used(&self) -> usize {
         match self.k {
             0 => 0,
@@ -46,7 +47,20 @@ impl Parts {
 #[cfg_attr(kani, kani::proof)]
 #[cfg_attr(kani, kani::unwind(14))]
 pub fn c16_new_boxed_tag() {
-    let p = parts();
+    new_boxed_tag::<MAXC>();
+}
+
+// @harness props=C16 tier=thorough panic=forbid builder=yes timeout=3000
+// @encodes as c16_new_boxed_tag
+// @bound content of total length 0..=24 in 0..=3 slices
+#[cfg_attr(kani, kani::proof)]
+#[cfg_attr(kani, kani::unwind(26))]
+pub fn c16_new_boxed_tag_24() {
+    new_boxed_tag::<MAXC_T>();
+}
+
+fn new_boxed_tag<const M: usize>() {
+    let p = parts::<M>();
     let s = [&p.content[..p.c1], &p.content[p.c1..p.c2], &p.content[p.c2..p.total]];
     let typ: u32 = nd::any();
     let stale: u32 = nd::any();
@@ -81,7 +95,7 @@ pub fn c16_new_boxed_tag() {
 #[cfg_attr(kani, kani::unwind(14))]
 pub fn c16_new_boxed_header() {
     use multiboot2_header::{HeaderTagISA, Multiboot2BasicHeader};
-    let p = parts();
+    let p = parts::<MAXC>();
     let s = [&p.content[..p.c1], &p.content[p.c1..p.c2], &p.content[p.c2..p.total]];
     // a basic header as the builder makes it: only reachable through load of a built header
     let arch = if nd::any_bool() { HeaderTagISA::MIPS32 } else { HeaderTagISA::I386 };
